@@ -19,7 +19,7 @@ EXTENDS Unbalanced, IOUtils
 VARIABLES tid, l
 Traces == JsonDeserialize(IOEnv.TRACE_FILE)
 
-EvInp(ev) == [dlab |-> ev.lab, nodesc |-> FALSE, idx |-> "none", prior |-> FALSE, lab |-> ev.lab, fold |-> ev.fold, usefold |-> ev.usefold, x |-> ev.x,
+EvInp(ev) == [dlab |-> ev.lab, nodesc |-> FALSE, idx |-> "none", ival |-> <<>>, prior |-> FALSE, lab |-> ev.lab, fold |-> ev.fold, usefold |-> ev.usefold, x |-> ev.x,
               valid |-> [o \in DOMAIN ev.valid |-> Range(ev.valid[o])], m |-> ev.m, w |-> ev.w, prec |-> ev.prec]
 InDomain(ev) == /\ ev.m \in AllMethods /\ ev.w \in {"number", "equal"}
                 /\ Len(ev.x) = Len(ev.lab) /\ Len(ev.valid) = Len(ev.lab)
@@ -30,7 +30,7 @@ NanOk(ev, R) == ev.nan = R.nan
 ValuesOk(ev, R) == ev.exact => (Exact(EvInp(ev)) /\ ev.rdm = R.rdm)
 
 TInit == /\ tid \in 1..Len(Traces) /\ l = 1 /\ pc = "in" /\ out = <<>>
-         /\ inp = [dlab |-> <<1, 2>>, nodesc |-> FALSE, idx |-> "none", prior |-> FALSE, lab |-> <<1, 2>>, fold |-> <<>>, usefold |-> FALSE, x |-> <<<<0>>, <<1>>>>, valid |-> <<{1}, {1}>>,
+         /\ inp = [dlab |-> <<1, 2>>, nodesc |-> FALSE, idx |-> "none", ival |-> <<>>, prior |-> FALSE, lab |-> <<1, 2>>, fold |-> <<>>, usefold |-> FALSE, x |-> <<<<0>>, <<1>>>>, valid |-> <<{1}, {1}>>,
                    m |-> "euclidean", w |-> "number", prec |-> <<>>]
 TStep == /\ l >= 1 /\ l <= Len(Traces[tid])
          /\ LET ev == Traces[tid][l]  R == Result(EvInp(ev)) IN
